@@ -18,9 +18,10 @@ LEVEL = "fault_enumeration"
 RULE = (
     "a case = prior traffic leaving the host's send / receive numbers at (i, j) in 0..7 x 0..7, then reset() or "
     "wait_for_startup_reset() with a schedule of peer reactions {RSTACK(code), ERROR(code >= 0x51), connection_lost(exc), "
-    "connection_lost(None), EOF} at instants {before the request, at once, 1 s, 4.999 s, 5.001 s, 7 s}, optionally a second "
+    "connection_lost(None), EOF (also an EOF before the request followed by the transport's own connection_lost after it)} at instants {before the request, at once, 1 s, 4.999 s, 5.001 s, 7 s}, optionally a second "
     "reset() while the first is pending. Enumerated: all 256 RSTACK codes x {in time, before the request, after the timeout, "
-    "twice}; all 64 (i, j) states; every error code; loss at each step; plus Hypothesis schedules. Non-trivial = the "
+    "twice}; all 64 (i, j) states; every error code; loss at each step; 1-3 sends queued behind an in-flight frame that "
+    "the NCP acknowledges before / together with its RSTACK (every send number 0..7); plus Hypothesis schedules. Non-trivial = the "
     "schedule contains a reaction other than a single in-time RSTACK(software); distinct by plan."
 )
 ASSUMPTIONS = [
@@ -216,6 +217,112 @@ async def scenario(loop, plan, r):
             inflight.cancel()
 
 
+async def scenario_queued(loop, plan, r):
+    """Sends queued behind an in-flight frame while the handshake takes place.  The in-flight frame is acknowledged
+    by the NCP before its RSTACK (a conforming NCP acknowledges what it received before it processed the RST), so
+    every frame written after the handshake is a NEW frame: the first must be 0/0 and the rest consecutive."""
+    import bellows.ash as ash
+    import bellows.uart as uart
+
+    app = AppRec(loop)
+    gw = uart.Gateway(app)
+    proto = ash.AshProtocol(gw)
+    tr = FakeTransport(loop)
+    tr.protocol = proto
+    proto.connection_made(tr)
+    state = {"iter": -1, "autoack": True}
+
+    def feed_wire(data):
+        if loop.iterations == state["iter"]:
+            loop.call_soon(feed_wire, data)
+            return
+        state["iter"] = loop.iterations
+        proto.data_received(data)
+
+    def sink(data):
+        for f in refash.split_wire(data):
+            if f.get("kind") == "DATA" and state["autoack"]:
+                loop.call_later(0.001, feed_wire, refash.wire(refash.enc_ack((f["frm"] + 1) % 8)))
+
+    tr.sink = sink
+    i = plan["i"]
+    for k in range(i):
+        await asyncio.wait_for(gw.send_data(bytes([0x10 + k, 1, 2, 3])), 50)
+    for k in range(plan["j"]):
+        feed_wire(refash.wire(refash.enc_data(k, 0, i % 8, bytes([0x20 + k, 9, 9, 9]))))
+        await asyncio.sleep(0.002)
+    state["autoack"] = False
+    sends = [asyncio.ensure_future(gw.send_data(b"\x77\x01\x02\x03"))]
+    await asyncio.sleep(0.001)
+    for k in range(plan["queued"]):
+        sends.append(asyncio.ensure_future(gw.send_data(bytes([0x78 + k, 1, 2, 3]))))
+        await asyncio.sleep(0.0005)
+    ack = refash.wire(refash.enc_ack((i + 1) % 8))
+    rstack = refash.wire(refash.enc_rstack(SOFTWARE))
+    how = plan["ack"]
+    if how == "before-request":
+        feed_wire(ack)
+        await asyncio.sleep(0)  # the ACK is processed, the queued frame may already be on the wire: skip (other class)
+    w0 = len(tr.writes)
+    task = asyncio.ensure_future(gw.reset())
+    await asyncio.sleep(0.0005)
+    if how == "between":
+        feed_wire(ack)
+        await asyncio.sleep(0.0002)
+        w_after = len(tr.writes)
+        state["autoack"] = True
+        feed_wire(rstack)
+    elif how == "same-chunk":
+        w_after = len(tr.writes)
+        state["autoack"] = True
+        feed_wire(ack + rstack)
+    else:
+        w_after = len(tr.writes)
+        state["autoack"] = True
+        feed_wire(rstack)
+    await asyncio.wait([task], timeout=20)
+    if not task.done() or task.cancelled() or task.exception() is not None:
+        r.bad("C11:reset-outcome:queued-sends", f"reset did not complete: {task}; plan {plan}")
+        return
+    await asyncio.wait(sends, timeout=60)
+    frames = [f for _, d in tr.writes[w_after:] for f in refash.split_wire(d) if f.get("kind") == "DATA"]
+    if how == "between":
+        # a queued frame may have left between the ACK and the RSTACK with a pre-reset number: it was sent BEFORE the
+        # handshake completed; only frames first written after the RSTACK are judged
+        frames = [f for tm, d in tr.writes[w_after:] for f in refash.split_wire(d) if f.get("kind") == "DATA"]
+    new = [f for f in frames if not f["retx"]]
+    r.cls("queued-behind-inflight", "ack:" + how)
+    if how == "before-request":
+        r.cls("observation:queued-frame-left-before-reset")
+        for x in sends:
+            x.cancel()
+        return
+    if new:
+        if new[0]["frm"] != 0 or new[0]["ack"] != 0:
+            r.bad("C11:numbering-not-restarted:queued-send", f"first new DATA after the handshake {new[0]}; plan {plan}")
+            return
+        nums = [f["frm"] for f in new]
+        if nums != [k % 8 for k in range(len(nums))]:
+            r.bad("C11:numbering-not-consecutive-after-reset:queued-send", f"{nums}; plan {plan}")
+            return
+    if how == "same-chunk" and len(new) != plan["queued"]:
+        r.bad("C11:queued-send-lost-over-reset", f"{len(new)} new frames for {plan['queued']} queued sends; plan {plan}")
+        return
+    for x in sends:
+        if not x.done():
+            x.cancel()
+
+
+def check_queued(plan) -> Result:
+    r = Result()
+    try:
+        vloop.run_case(lambda loop: scenario_queued(loop, plan, r), horizon=1e6)
+    except vloop.Hang:
+        r.bad("C11:hang", f"{plan}")
+    r.nontrivial = True
+    return r
+
+
 def _fire(loop, gw, proto, feed, e):
     kind = e[1]
     if kind == "rstack":
@@ -251,7 +358,7 @@ def check(plan) -> Result:
 
 
 def replay(plan) -> Result:
-    return check(plan)
+    return check_queued(plan) if "queued" in plan else check(plan)
 
 
 TIMES = [-1, 0.0005, 1.0, 4.999, 5.001, 7.0]
@@ -280,10 +387,12 @@ def plans(draw):
     # nothing can arrive after the connection is gone, and a lost connection before the request is another scenario
     out = []
     for e in evs:
-        if e[1] in ("lost", "lost_none", "eof") and e[0] < 0:
+        if e[1] in ("lost", "lost_none") and e[0] < 0:
             continue
         out.append(e)
-        if e[1] in ("lost", "lost_none", "eof"):
+        # an end-of-file seen BEFORE the request does not end the scenario: the transport reports the actual close
+        # later (asyncio calls connection_lost after eof_received), and a waiter registered in between must be released
+        if e[1] in ("lost", "lost_none") or (e[1] == "eof" and e[0] >= 0):
             break
     plan = {"i": draw(st.integers(0, 9)), "j": draw(st.integers(0, 9)), "op": op, "events": out}
     if op == "reset" and draw(st.integers(0, 4)) == 0:
@@ -299,6 +408,9 @@ def _worker(ctx, n):
 
 def _worker_enum(ctx, job):
     for plan in job:
+        if "queued" in plan:
+            ctx.check(plan, check_queued(plan), sample=(plan["i"] == 3 and plan["queued"] == 2))
+            continue
         ctx.check(plan, check(plan), sample=(plan["events"] and plan["events"][0][2] == 0x02 and plan["i"] == 3))
 
 
@@ -325,6 +437,13 @@ def enum_plans(quick):
                 out.append({"i": 2, "j": 2, "op": op, "events": [[tt, kind, 0]]})
                 out.append({"i": 2, "j": 2, "op": op, "events": [[tt / 2, "rstack", 0x02], [tt, kind, 0]]})
             out.append({"i": 2, "j": 2, "op": "reset", "events": [[tt, kind, 0]], "second": 0.0003})
+            if kind != "eof":
+                for op in ("reset", "startup"):
+                    out.append({"i": 2, "j": 2, "op": op, "events": [[-1, "eof", 0], [tt, kind, 0]]})
+    for i in range(8):
+        for q in (1, 2, 3):
+            for how in ("same-chunk", "between", "before-request"):
+                out.append({"i": i, "j": (i * 3) % 8, "queued": q, "ack": how, "events": [[0.001, "rstack", SOFTWARE]], "op": "reset"})
     return out
 
 
